@@ -261,6 +261,43 @@ fn multi_counter_loop_family() -> Vec<Prog> {
   out
 }
 
+/// Several classes declare a member of the same simple name and call each other's: the only path to a
+/// function is a call from a same-named function of another class (recursive or large enough to stay
+/// a real function), methods and functions, two and three classes deep.
+fn same_member_name_family() -> Vec<Prog> {
+  let mut out = vec![];
+  for (kname, is_method) in [("method", true), ("function", false)] {
+    for depth in [2usize, 3] {
+      for (sname, keep) in [("recursive", "rec"), ("large", "large"), ("small", "small")] {
+        let classes = ["Table", "Row", "Cell"];
+        let mut text = String::new();
+        for (i, c) in classes[..depth].iter().enumerate() {
+          let next = if i + 1 < depth {
+            if is_method { format!("{}.init(this.n + 1).total(k)", classes[i + 1]) } else { format!("{}.total(n + 1, k)", classes[i + 1]) }
+          } else {
+            (if is_method { "this.n * 100 + k" } else { "n * 100 + k" }).to_string()
+          };
+          let self_call = if is_method { "this.total(k - 1)".to_string() } else { "Self.total(n, k - 1)".replace("Self", c) };
+          let body = match keep {
+            "rec" => format!("if k > 0 {{ 1 + {self_call} }} else {{ {next} }}"),
+            "large" => format!("{{\n    Process.println(\"{c} a\"); Process.println(\"{c} b\"); Process.println(\"{c} c\"); Process.println(\"{c} d\"); Process.println(\"{c} e\");\n    Process.println(\"{c} f\"); Process.println(\"{c} g\"); Process.println(\"{c} h\"); Process.println(\"{c} i\"); Process.println(\"{c} j\");\n    {next}\n  }}"),
+            _ => next.clone(),
+          };
+          if is_method {
+            text.push_str(&format!("class {c}(val n: int) {{\n  method total(k: int): int = {body}\n}}\n"));
+          } else {
+            text.push_str(&format!("class {c} {{\n  function total(n: int, k: int): int = {body}\n}}\n"));
+          }
+        }
+        let call = if is_method { "Table.init(1).total(k)" } else { "Table.total(1, k)" };
+        text.push_str(&format!("class Main {{\n  function main(): unit = {{\n    let k = \"2\".toInt();\n    Process.println(Str.fromInt({call}));\n    Process.println(Str.fromInt({}))\n  }}\n}}\n", call.replace("(k)", "(0)").replace(", k)", ", 0)")));
+        out.push(Prog { family: "same-member-name", shape: format!("{kname} total in {depth} classes, {sname}"), name: format!("same member name: {kname} x{depth} {sname}"), text });
+      }
+    }
+  }
+  out
+}
+
 fn loop_family(thorough: bool) -> Vec<Prog> {
   let guards: Vec<(&str, &str)> = vec![
     ("i<B", "I < B"), ("i<=B", "I <= B"), ("i>B", "I > B"), ("i>=B", "I >= B"), ("i!=B", "I != B"),
@@ -533,6 +570,7 @@ fn main() {
   progs.extend(inline_permutation_family());
   progs.extend(dead_effect_family());
   progs.extend(multi_counter_loop_family());
+  progs.extend(same_member_name_family());
   // (class-bound programs do not survive lowering on the pinned tree: known finding C03-K2)
   let fams: Vec<Prog> = progfam::all_families(thorough).into_iter().filter(|p| p.family != "class-bound").collect();
   if thorough {
